@@ -141,14 +141,14 @@ Proof.
 Qed.
 
 (** ** one step *)
-Theorem step_refines st o : wf2 st -> op_dom o = true ->
+Theorem step_refines st o : wf2 st ->
   match step_m bits w st o with
   | Ok (st', q) => wf2 st' /\ s_step bits (abs2 st) o = Some (abs2 st', q)
   | Contract => s_step bits (abs2 st) o = None
   | _ => False
   end.
 Proof.
-  destruct st as (cur, oth). intros (Hc & Ho) Hdom. unfold wf2, abs2 in *. cbn [fst snd] in *.
+  destruct st as (cur, oth). intros (Hc & Ho). unfold wf2, abs2 in *. cbn [fst snd] in *.
   unfold step_m.
   assert (Hset : forall pos v,
     match rbind (set_pos bits w mx cur pos v) (fun c => Ok ((c, oth), @nil bool)) with
@@ -210,10 +210,9 @@ Proof.
   - (* OInt *) destruct (of_ullong_spec bits k Hbits val) as (Hwf' & Habs).
     split; [split; [exact Hwf'|exact Ho]|]. cbn [fst snd]. now rewrite Habs.
   - (* OStr *) pose proof (of_string_spec bits k Hbits str pos n zero one) as H.
-    cbn [op_dom] in Hdom.
     destruct (of_string bits w mx m64 str pos n zero one) as [c| | |]; cbn [rbind]; try contradiction.
-    + destruct H as (_ & Hwf' & Hs). rewrite (Hs Hdom). cbn [fst snd]. auto.
-    + now rewrite H.
+    + destruct H as (Hwf' & ->). cbn [fst snd]. auto.
+    + destruct H as [-> | ->]; reflexivity.
   - (* OSwap *) cbn [fst snd]. auto.
   - (* OTest *) pose proof (test_pos_spec cur pos Hc) as H.
     destruct (test_pos bits w mx cur pos) as [b| | |]; cbn [rbind]; try contradiction.
@@ -243,13 +242,12 @@ Proof.
 Qed.
 
 (** ** whole histories *)
-Theorem run_refines ops : forall st, wf2 st -> forallb op_dom ops = true ->
+Theorem run_refines ops : forall st, wf2 st ->
   run_m bits w st ops = s_run bits (abs2 st) ops.
 Proof.
-  induction ops as [|o rest IH]; intros st Hwf Hdom; [reflexivity|].
-  cbn [forallb] in Hdom. apply andb_true_iff in Hdom. destruct Hdom as (Hd & Hrest).
+  induction ops as [|o rest IH]; intros st Hwf; [reflexivity|].
   unfold run_m in *. cbn [run_k s_run].
-  pose proof (step_refines st o Hwf Hd) as H. unfold step_m in H.
+  pose proof (step_refines st o Hwf) as H. unfold step_m in H.
   destruct (step_k bits w mx pmi m64 st o) as [(st', q)| | |]; try contradiction.
   - destruct H as (Hwf' & ->). rewrite <- (observe_refines st' Hwf'). unfold observe_m.
     f_equal. now apply IH.
@@ -257,10 +255,10 @@ Proof.
 Qed.
 
 (* from the value-initialised sets: the model prints what std::bitset prints *)
-Theorem history_refines ops : forallb op_dom ops = true ->
+Theorem history_refines ops :
   run_m bits w (init_m bits w) ops = s_run bits (s_init bits) ops.
 Proof.
-  intros Hdom. rewrite <- abs2_init. apply run_refines; [apply wf2_init|exact Hdom].
+  rewrite <- abs2_init. apply run_refines. apply wf2_init.
 Qed.
 
 (* the invariant along a history: after any prefix the state is well formed *)
@@ -270,12 +268,11 @@ Fixpoint final_state (st : state) (ops : list op) : state :=
   | o :: rest => match step_m bits w st o with Ok (st', _) => final_state st' rest | _ => final_state st rest end
   end.
 
-Theorem invariant_along_history ops : forall st, wf2 st -> forallb op_dom ops = true ->
+Theorem invariant_along_history ops : forall st, wf2 st ->
   wf2 (final_state st ops).
 Proof.
-  induction ops as [|o rest IH]; intros st Hwf Hdom; [exact Hwf|].
-  cbn [forallb] in Hdom. apply andb_true_iff in Hdom. destruct Hdom as (Hd & Hrest).
-  cbn [final_state]. pose proof (step_refines st o Hwf Hd) as H.
+  induction ops as [|o rest IH]; intros st Hwf; [exact Hwf|].
+  cbn [final_state]. pose proof (step_refines st o Hwf) as H.
   destruct (step_m bits w st o) as [(st', q)| | |]; try contradiction; [|now apply IH].
   destruct H as (Hwf' & _). now apply IH.
 Qed.
